@@ -242,7 +242,12 @@ func (r *Run) Finish(minEvents int) {
 		bySig[v.Signature] = append(bySig[v.Signature], v)
 	}
 	sort.Strings(sigs)
-	replayDir := filepath.Join(VerifDir, "evidence", "replays")
+	evDir := filepath.Join(VerifDir, "evidence")
+	if RepoDir != "/repo" {
+		// development run against a scratch tree: what it finds says nothing about /repo
+		evDir = filepath.Join(VerifDir, ".work", "dev-evidence")
+	}
+	replayDir := filepath.Join(evDir, "replays")
 	os.MkdirAll(replayDir, 0o755)
 	for i, sig := range sigs {
 		vs := bySig[sig]
@@ -304,8 +309,8 @@ func (r *Run) Finish(minEvents int) {
 	}
 	b, _ := json.MarshalIndent(ev, "", " ")
 	if r.OnlyCase == -1 {
-		os.MkdirAll(filepath.Join(VerifDir, "evidence"), 0o755)
-		if err := os.WriteFile(filepath.Join(VerifDir, "evidence", r.Prop+".json"), append(b, '\n'), 0o644); err != nil {
+		os.MkdirAll(evDir, 0o755)
+		if err := os.WriteFile(filepath.Join(evDir, r.Prop+".json"), append(b, '\n'), 0o644); err != nil {
 			fmt.Printf("CHECK-BROKEN property=%s cannot write evidence: %v\n", r.Prop, err)
 			r.broken = append(r.broken, "evidence")
 		}
